@@ -46,3 +46,31 @@ pub fn gen_invocation(t: &mut Tape) -> Invocation {
         }
     }
 }
+
+/// E1 is only trusted because E2 cross-checks it: every record the recorder hook produced during a real rustc build is
+/// re-expanded in-process and compared token for token. A mismatch is a harness fault (exit 2), never a violation.
+pub fn crosscheck_records(ctx: &mut crate::ev::Ctx, records: &[crate::tok::Record]) {
+    let mut agreed = 0u64;
+    for r in records {
+        let Some(out) = &r.output else { continue };
+        let attr = crate::tok::stream_from_json(&r.attr_json).unwrap_or_else(|e| crate::ev::inconclusive(&format!("record attr: {e}")));
+        let input = crate::tok::stream_from_json(&r.input_json).unwrap_or_else(|e| crate::ev::inconclusive(&format!("record input: {e}")));
+        match e1::expand_ts(&r.macro_name, attr, input) {
+            e1::Expansion::Tokens(ts) => {
+                let got = crate::tok::toks(ts);
+                if &got != out {
+                    crate::ev::inconclusive(&format!(
+                        "E1 port diverged from the real expansion for #[{}({})] on `{}`",
+                        r.macro_name,
+                        crate::tok::render(&r.attr),
+                        super::c20::truncate(&crate::tok::render(&r.input), 300)
+                    ));
+                }
+                agreed += 1;
+            }
+            e1::Expansion::Panic(m) => crate::ev::inconclusive(&format!("E1 panicked on a recorded input that rustc expanded: {m}")),
+        }
+    }
+    let prev = ctx.extra.get("e1_e2_expansions_agreeing").and_then(|v| v.as_u64()).unwrap_or(0);
+    ctx.extra.insert("e1_e2_expansions_agreeing".into(), serde_json::json!(prev + agreed));
+}
